@@ -17,7 +17,7 @@ RULE = (
 )
 ASSUMPTIONS = ["tag text is taken strictly from opening to closing delimiter (whitespace Jinja's lexer folds into a trimmed tag is not template code)"]
 TIMEOUT = {"quick": 400, "thorough": 900}
-MIN_NONTRIVIAL = {"quick": 60, "thorough": 500}
+MIN_NONTRIVIAL = {"quick": 40, "thorough": 500}
 REQUIRED_COUNTERS = ["tag_sequences_compared", "files_changed_by_fix"]
 FOUR = ("ansi", "postgres", "tsql", "bigquery")
 RS = {"all": None, "format": fixcase.FORMAT_RULES, "nojj": None}
@@ -44,7 +44,7 @@ def universe():
 
 
 def cases(tier, seed):
-    return stratified_sample(universe(), lambda c: c["stratum"], 480 if tier == "quick" else 0, seed)
+    return stratified_sample(universe(), lambda c: c["stratum"], 300 if tier == "quick" else 0, seed)
 
 
 def extract(r, text, jj01):
